@@ -7,7 +7,7 @@ marks and right-to-left text.
 import common, gen
 from common import pmap, rng, build
 
-EXCMDS = ['s/é*/X/', 's/é+/X/g', 's/ï?v/Y/', 's/中{2}/Z/', 's/aé*/X/', 's/ü*n/N/g', 's/[é]*t/T/', 's/./x/', 's/.$//', 's/^.//', 's/x*/-/g', 's/[^a]/_/g', 's/\\(/(/', 's/é/e/g', 's/./&&/g', 's/(.)(.)/\\2\\1/g', 's/.\\>//', 's/\\<./X/g', '1,$s/..$/é/', 'g/./s/.//', '%s/$/é/', 'd', 'y|pu']
+EXCMDS = ['s/é*/X/', 's/é+/X/g', 's/ï?v/Y/', 's/中{2}/Z/', 's/aé*/X/', 's/ü*n/N/g', 's/[é]*t/T/', 's/./x/', 's/.$//', 's/^.//', 's/x*/-/g', 's/[^a]/_/g', 's/\\(/(/', 's/é/e/g', 's/./&&/g', 's/(.)(.)/\\2\\1/g', 's/.\\>//', 's/\\<./X/g', '1,$s/..$/é/', 'g/./s/.//', '%s/$/é/', 'd', 'y|pu', 's/a/\\é/', 's/./\\中&/g', 's/x*/\\😀/g', 's/o/\\ب\\é/', '&', 's', 's//\\é&/']      # (an escaped multi-byte character in the replacement; the remembered replacement used again)
 
 
 def run_case(args):
